@@ -360,12 +360,13 @@ class TypeGen:
         total = r.random() < 0.8
         self.fam.add({"k": "td", "name": name, "total": total, "fields": fields,
                       "functional": functional})
-        if not functional and not self.fam.future and r.random() < 0.25:
+        if not functional and r.random() < 0.25:
             # a TypedDict extending it with the OTHER totality: an inherited key keeps the requiredness it had in
             # the class that declared it (listed here with an explicit qualifier, not rendered again)
             child = self.fresh("TD")
             inherited = [dict(f, q=f["q"] or ("Required" if total else "NotRequired"), inherited=True) for f in fields]
-            own = [{"n": f"c{i}", "t": self.type(depth), "q": r.choice([None, None, "Required", "NotRequired"])} for i in range(r.randint(1, 2))]
+            # (under PEP 563 class syntax cannot show qualifiers to typing: there the totality of the declaring class decides alone)
+            own = [{"n": f"c{i}", "t": self.type(depth), "q": None if self.fam.future else r.choice([None, None, "Required", "NotRequired"])} for i in range(r.randint(1, 2))]
             self.fam.add({"k": "td", "name": child, "total": not total, "fields": inherited + own, "functional": False, "base": name})
             return ("td", child)
         return ("td", name)
